@@ -240,6 +240,9 @@ class PropCheck:
     rule = ""
     #: names of the correspondences (for replay files when nothing concrete is found)
     correspondence_name = "model-vs-implementation"
+    #: process-wide settings under which a sample of the cases is repeated (see process_env); () where the real side runs in
+    #: worker processes of its own or installs its own logging / warning hooks
+    process_envs: tuple = ("tblimit", "logging")
 
     def cases(self, rng: random.Random, tier: str) -> List[dict]:
         raise NotImplementedError
@@ -386,10 +389,45 @@ def write_replay(pid: str, payload: dict) -> Path:
     return p
 
 
+@contextlib.contextmanager
+def process_env(name: Optional[str]):
+    """Process-wide settings that no property may depend on; a sample of every check's cases is run under each of them (the
+    expected result is the one without the setting: same model line, same oracle)."""
+    if name == "tblimit":
+        # limits how tracebacks are PRINTED (traceback.print_* / extract_* honour it)
+        sys.tracebacklimit = 0
+        try:
+            yield
+        finally:
+            if hasattr(sys, "tracebacklimit"):
+                del sys.tracebacklimit
+    elif name == "logging":
+        # an application with verbose logging on: every record is formatted at once
+        import io as _io
+        import logging as _lg
+
+        root = _lg.getLogger()
+        old = root.level
+        h = _lg.StreamHandler(_io.StringIO())
+        h.setFormatter(_lg.Formatter("%(name)s %(message)s"))
+        root.addHandler(h)
+        root.setLevel(_lg.DEBUG)
+        try:
+            yield
+        finally:
+            root.removeHandler(h)
+            root.setLevel(old)
+            out = h.stream.getvalue()
+            if "stackscope" in out.split("\n")[0][:40]:
+                raise AssertionError(f"stackscope emitted log records while extracting: {out[:200]!r}")
+    else:
+        yield
+
+
 def safe_run_real(chk: PropCheck, case: dict, limit: Optional[float] = None) -> Any:
     limit = limit or getattr(chk, "real_time_limit", 20.0)
     try:
-        with time_limit(limit):
+        with time_limit(limit), process_env(case.get("penv") if isinstance(case, dict) else None):
             return chk.run_real(case)
     except CaseTimeout as e:
         return {"__timeout__": str(e)}
@@ -451,7 +489,17 @@ def main_check(chk: PropCheck, argv: Optional[List[str]] = None) -> int:
 
     # ---- correspondence + oracle on the real code ------------------------------------------
     chk.setup()
-    cases = chk.corpus() + chk.cases(rng, tier) + chk.witness_cases()
+    cases = chk.corpus() + chk.cases(rng, tier)
+    envs = list(getattr(chk, "process_envs", ()))
+    if envs and cases:
+        step = max(1, len(cases) // (25 if tier == "quick" else 150))
+        extra = []
+        for i in range(0, len(cases), step):
+            c = cases[i]
+            if isinstance(c, dict) and c.get("k") != "witness":
+                extra.append(dict(json.loads(json.dumps({k: v for k, v in c.items() if not k.startswith("_")})), penv=envs[(i // step) % len(envs)]))
+        cases = cases + extra
+    cases = cases + chk.witness_cases()
     reals = []
     n_timeouts = 0
     t_real = time.time()
